@@ -393,7 +393,8 @@ pub(super) fn derive_schema(input: TokenStream) -> syn::Result<TokenStream> {
                         #schema_with()
                     }
                 } else {
-                    schema_of_fields(v.fields, &container_attrs)?
+                    /* not `container_attrs`: `rename_all` of an enum is for the names of its variants, not of their fields */
+                    schema_of_fields(v.fields, &ContainerAttributes::default())?
                 };
 
                 schema = match (
